@@ -38,13 +38,13 @@ import random
 # Known defects of gosyn that the generator avoids by default.  Set a switch to
 # False to generate the construct again (see FINDINGS.md for every entry).
 AVOID = {
-    'kf_defer_last': True,        # `{ defer f() }`   ';' after defer may not be omitted before '}'
-    'kf_else_close': True,        # `if x {} else {} }`   ';' after an else-block may not be omitted
-    'kf_stmt_amp': True,          # statement starting with '&'
-    'kf_const_type': True,        # `const x *T = 1`   const type not starting with an identifier
+    'kf_defer_last': False,        # `{ defer f() }`   ';' after defer may not be omitted before '}'
+    'kf_else_close': False,        # `if x {} else {} }`   ';' after an else-block may not be omitted
+    'kf_stmt_amp': False,          # statement starting with '&'
+    'kf_const_type': False,        # `const x *T = 1`   const type not starting with an identifier
     'kf_tparam_bracket': True,    # `type T[P []int] struct{}`, `type T[P [10]int] struct{}`
-    'kf_embedded_star': True,     # embedded `*T` field loses the star (KF-29)
-    'kf_amp_paren': True,         # `&(x)` drops one paren level
+    'kf_embedded_star': False,     # embedded `*T` field loses the star (KF-29)
+    'kf_amp_paren': False,         # `&(x)` drops one paren level
     'kf_package_nl': True,        # newline directly after `package` (KF-5)
     'kf_inst_trailing_comma': True,   # `f[int,](x)` trailing comma in expression-context type args
     'kf_first_typearg_expr': True,    # embedded `T[*int]`, unnamed param `T[*int]`: first type arg parsed as expression
